@@ -21,6 +21,7 @@ import (
 	"verifharness/core"
 	"verifharness/gen"
 	"verifharness/model"
+	"verifharness/mon"
 	"verifharness/types"
 )
 
@@ -87,6 +88,10 @@ func roundTripCase(c *core.Ctx, idx int, mode int) {
 	}
 	if idx%37 == 11 && mode == modeC01 && !sweep {
 		lateRegistration(c, idx)
+		return
+	}
+	if idx%47 == 33 && !sweep {
+		concurrentTagged(c, idx)
 		return
 	}
 	if idx%43 == 21 && !sweep && mode == modeC01 {
@@ -366,6 +371,90 @@ func taggedElements(c *core.Ctx, idx int) {
 		}
 	}
 	rec.NonTrivial(core.Hash64("tagged-elements", fmt.Sprint(idx)))
+}
+
+// concurrentTagged: on an instance that has built nothing yet one goroutine asks for the codec of a
+// top-level type under a tag option (proto, flat) at the moment another marshals a value of the
+// type, which uses no tag option. Each gets what it gets when it is alone: the documented bytes
+// for the value, the codec kind of the option for the request (round 12: k02). The yield hooks in
+// the codec lookup widen the window.
+func concurrentTagged(c *core.Ctx, idx int) {
+	rec := c.Rec
+	r := c.Rand(idx)
+	cfg := instCfgs()[(idx%2)*2] // (without ProtoCompatibleArrays: top-level slices have no repeated form, D25)
+	T := reflect.TypeOf
+	leaf := reflect.StructOf([]reflect.StructField{{Name: "A", Type: T(int8(0)), Tag: `plenc:"1"`}, {Name: "B", Type: T(""), Tag: `plenc:"2"`}})
+	cases := []struct {
+		t   reflect.Type
+		tag string
+	}{{T([]string(nil)), "proto"}, {reflect.SliceOf(leaf), "proto"}, {T(map[string]int32(nil)), "proto"}, {T(types.MyInt(0)), "flat"}, {T(types.MyInt32(0)), "flat"}, {T([]time.Time(nil)), "proto"}, {T([][]byte(nil)), "proto"}, {T(int64(0)), "flat"}}
+	ref := instNew(cfg)
+	prev := c07YieldMode
+	defer func() { c07YieldMode = prev }()
+	for trial := 0; trial < 60; trial++ {
+		cs := cases[r.IntN(len(cases))]
+		v := (&gen.VG{R: r, C: cfg, Budget: 30}).Value(cs.t, "")
+		for v.IsZero() || model.HasMultiMap(v) {
+			v = (&gen.VG{R: r, C: cfg, Budget: 30}).Value(cs.t, "")
+		}
+		want := cfg.Encode(v)
+		rc, rerr := ref.CodecForTypeWithTag(cs.t, cs.tag)
+		wantKind := fmt.Sprintf("%T", rc)
+		if rerr != nil {
+			continue
+		}
+		p := instNew(cfg)
+		c07YieldMode = 1
+		var got []byte
+		var merr error
+		var mpn, cpn, gotKind string
+		var cerr error
+		start := make(chan struct{})
+		done := make(chan struct{}, 2)
+		order := r.IntN(2)
+		go func() {
+			defer func() { done <- struct{}{} }()
+			<-start
+			if order == 0 {
+				mon.Jitter(0)
+			}
+			got, merr, mpn = marshal(p, nil, ptrTo(v))
+		}()
+		go func() {
+			defer func() { done <- struct{}{} }()
+			<-start
+			if order == 1 {
+				mon.Jitter(0)
+			}
+			cpn = core.Guard(func() {
+				var cd plenccodec.Codec
+				cd, cerr = p.CodecForTypeWithTag(cs.t, cs.tag)
+				gotKind = fmt.Sprintf("%T", cd)
+			})
+		}()
+		close(start)
+		<-done
+		<-done
+		c07YieldMode = 0
+		rec.Eval(2)
+		desc := fmt.Sprintf("[%s] on a new instance, Marshal of a %s at the same moment as CodecForTypeWithTag(%s, %q)", cfgName(cfg), cs.t, cs.t, cs.tag)
+		if merr != nil || mpn != "" || !bytes.Equal(got, want) {
+			rec.Violation("wire-format", fmt.Sprintf("%s: Marshal gives %s (%v %s), the documented encoding is %s\n  value %s", desc, hexHead(got), merr, trunc1(mpn), hexHead(want), model.Show(v)), nil)
+			return
+		}
+		if cerr != nil || cpn != "" || gotKind != wantKind {
+			rec.Violation("wire-format", fmt.Sprintf("%s: the request gives a %s (%v %s), alone it gives a %s", desc, gotKind, cerr, trunc1(cpn), wantKind), nil)
+			return
+		}
+		// and afterwards both keys hold what they should
+		again, err, pn := marshal(p, nil, ptrTo(v))
+		if err != nil || pn != "" || !bytes.Equal(again, want) {
+			rec.Violation("wire-format", fmt.Sprintf("%s: afterwards Marshal gives %s (%v %s), the documented encoding is %s", desc, hexHead(again), err, trunc1(pn), hexHead(want)), nil)
+			return
+		}
+		rec.Count("concurrent_tagged_first_uses", 1)
+	}
+	rec.NonTrivial(core.Hash64("concurrent-tagged", fmt.Sprint(idx)))
 }
 
 const indexWindowWidth = 24
@@ -1065,6 +1154,7 @@ func init() {
 		"Every third value also goes through a long-lived instance per configuration that has built the codecs of all earlier cases; between the values of a case, damaged encodings (cut, bit flipped, continuation bit set; in a fifth of the cases every byte position in turn set to 0xff, raised and lowered by one) of the previous value are decoded on both instances, whatever they return. " +
 		"Every seventh struct type is padded to encodings of every size from b-12 to b+1 for b = 128, 16384 (thorough: also 2^21) and nested as field, pointer target, slice element, map value and proto map value of a struct inside an outer struct. Every 509th case round-trips a container with 70 001 - 1 200 017 entries (strings, structs, pointers, byte slices, times, nested slices, map entries; plain and proto-tagged). Descriptor() of the type is asked for between the calls of a case. Every 37th case (C01) registers a codec for a type the instance has already used at top level and round-trips through it; in a fifth of the cases one comparison comes after a garbage collection and 40 000 small allocations. " +
 		"Every 16th case is a struct with a field at every index of a window of 24 consecutive indexes (windows in turn from 0 upwards: 0..11999 in the quick tier, up to the 100000 of known finding D29 in the thorough one), with a low and a far field beside it. Every 13th case runs on an instance whose time.Time codec is the BigQuery timestamp codec (element codec of []time.Time, value codec of maps). The intern option also sits on slices and maps. " +
+		"Every 47th case: sixty new instances on which one goroutine asks for the codec of a top-level type under a tag option while another marshals a value of the type; every 43rd case (C01): codecs registered under tag names for built-in integer types with other wire types, the tag on fields, pointers and slices. " +
 		"A case is non-trivial when its value has a non-zero scalar, non-empty container or non-nil pointer; distinct = distinct (type, configuration, value-shape class) hashes."
 	core.Register(&core.Prop{
 		ID:        "C01",
@@ -1072,6 +1162,7 @@ func init() {
 		Rule:      genRule,
 		Assume:    []string{"harness model (model.Normalise, model.Diff) states the documented normalisations", "known findings D4 and D22 are excluded from generation (known_findings.json)"},
 		Plan:      plan(8000, 300000),
+		Setup:     func(c *core.Ctx) { plenccodec.SetVerifYield(c07Hook) },
 		Case:      func(c *core.Ctx, idx int) { roundTripCase(c, idx, modeC01) },
 	})
 	core.Register(&core.Prop{
@@ -1081,6 +1172,7 @@ func init() {
 		Assume:    []string{"harness model (model.Encode, model.Canon) states the documented format; anchored on the 19 golden files of the pinned commit"},
 		Plan:      plan(8000, 200000),
 		Setup: func(c *core.Ctx) {
+			plenccodec.SetVerifYield(c07Hook)
 			if c.Shard == 0 {
 				checkGoldens(c)
 			}
